@@ -45,7 +45,8 @@ def verify(wt, mid, prop):
         meta['needs'] = open(notes).read()[:1500] if os.path.exists(notes) else ''
         try:
             old = json.load(open(os.path.join(dst, 'meta.json')))
-            if 'detection' in old: meta['detection'] = old['detection']
+            for k in ('detection', 'summary', 'needs_short'):
+                if k in old: meta[k] = old[k]
         except Exception: pass
         json.dump(meta, open(os.path.join(dst, 'meta.json'), 'w'), indent=1)
     return meta
